@@ -1,6 +1,6 @@
 (* C06 - Anti-replay: no payload is delivered twice, the window tolerates reordering.
    Only statements closed by [exact]; proofs live in Rec/WindowSound.v. *)
-From DtlsV Require Import Lib.Bytes Gen.Generated Rec.Window Rec.WindowSound Rec.WindowRun.
+From DtlsV Require Import Lib.Bytes Gen.Generated Rec.Window Rec.WindowSound Rec.WindowRun Rec.Recv Rec.RecvSound.
 Open Scope N_scope.
 
 (* For every window size W (1 <= W <= maxseq), every arrival sequence xs (with repetitions,
@@ -42,6 +42,24 @@ Theorem C06_check_refines_set :
     x <= maxseq /\ (latest s < x \/ (latest s - x < N.of_nat W /\ ~ In x S)).
 Proof. exact check_spec. Qed.
 Print Assumptions C06_check_refines_set.
+
+(* At the level of the connection (Rec/Recv.v: the receive path of conn.go with its order of
+   effects): over EVERY operation history - arrivals in any order with any repetition, before and
+   after key installation, replays of the future-epoch queue, across epoch changes - no record
+   number is handed to Read twice.  Since every delivery is the content of an authentic record
+   (C05_deliver_only_authentic) and the peer never seals two records under one number (C09), no
+   payload is delivered more often than it was written. *)
+Theorem C06_no_double_delivery :
+  forall (W : nat) (cid : bytes) (rrc : bool) (ops : list op), N.of_nat W <= maxseq48 ->
+    NoDup (recnums (deliveries (snd (run_ops W (rinit cid rrc) ops)))).
+Proof. exact deliveries_nodup. Qed.
+Print Assumptions C06_no_double_delivery.
+
+Theorem C06_no_double_commit :
+  forall (W : nat) (cid : bytes) (rrc : bool) (ops : list op), N.of_nat W <= maxseq48 ->
+    NoDup (marks (snd (run_ops W (rinit cid rrc) ops))).
+Proof. exact marks_nodup. Qed.
+Print Assumptions C06_no_double_commit.
 
 (* Tie to the regenerated facts of the current tree: the window the code hands to the detector
    is the model's [eff_window] (a whole number of 64-bit words, never smaller than requested,
